@@ -94,7 +94,7 @@ fn oracle_random(case: &[u8], obs: &mut Obs) -> Result<(), String> {
         _ => c.below(4097) as usize,
     };
     let nul_density = *c.pick(&[0u32, 2, 8, 32, 128]);
-    let style = c.below(3);
+    let style = c.below(4);
     let seed = c.u64();
     let mut t = vec![0u8; len];
     verif_model::choice::fill(seed, &mut t);
@@ -107,6 +107,8 @@ fn oracle_random(case: &[u8], obs: &mut Obs) -> Result<(), String> {
             *b = b'a' + (*b % 26);
         } else if style == 1 && *b == 0 {
             *b = 1;
+        } else if style == 3 {
+            *b = [1u8, 1, 0x7f, 0x80, 0xff, b'a', 2, 0xfe][(*b % 8) as usize];
         }
     }
     // first few bytes and the final byte directly from the choice sequence
@@ -125,6 +127,8 @@ fn oracle_random(case: &[u8], obs: &mut Obs) -> Result<(), String> {
         3 => usize::MAX - c.below(3) as usize,
         4 => *c.pick(BOUNDARY) as usize,
         5 => 0,
+        6 => c.val(64) as usize,
+        7 => ((1 + c.below(5)) << 32) as usize | c.below(len as u64 + 1) as usize,
         _ => c.below(len as u64 + 2) as usize,
     };
     check(&t, off, obs)
